@@ -67,7 +67,7 @@ for it in range(N):
             except ZeroDivisionError: raise
             trace.append((str(idx[d].date()), op, s.name, k, upd))
             dirty = dirty or (not upd and op not in ("update", "flatten"))
-            if rs.rand() < 0.4:
+            if rs.rand() < 0.4 or op == "update":      # always look after an update (a sub-strategy updated alone must not cancel the tree's pending refresh)
                 # update=False is the caller's promise to update before looking (that is how Rebalance batches its trades): keep it
                 if dirty: root.update(idx[d]); dirty = False
                 evals += 1
